@@ -473,12 +473,29 @@ func run(s Script, v *vt.V) {
 				v.Failf("bad-header", "%s: Range %q", desc, hdr.Get("Range"))
 				return
 			}
-			// the Location names the session by the id the backend's writer reports now
+			// the Location names the session by the id the backend's writer reports now: asked for the
+			// status of the upload at that Location, the server resumes the session under that id
 			if s.RotateIDs && rot.last != "" {
 				loc := hdr.Get("Location")
-				idb, err := base64.RawURLEncoding.DecodeString(loc[strings.LastIndex(loc, "/")+1:])
-				if err != nil || string(idb) != rot.last {
-					v.Failf("stale-upload-location", "%s: Location %q names upload id %q, the backend's writer reports %q", desc, loc, idb, rot.last)
+				wantID := rot.last
+				before := len(r.Calls())
+				u, err := url.Parse(loc)
+				if err != nil {
+					v.Failf("bad-header", "%s: Location %q: %v", desc, loc, err)
+					return
+				}
+				req2 := &http.Request{Method: "GET", URL: &url.URL{Path: u.Path, RawPath: u.RawPath, RawQuery: u.RawQuery}, Header: http.Header{}, Body: http.NoBody,
+					Host: "registry.test", Proto: "HTTP/1.1", ProtoMajor: 1, ProtoMinor: 1, RequestURI: u.RequestURI()}
+				h.ServeHTTP(httptest.NewRecorder(), req2)
+				after := r.Calls()
+				gotID := "<no resume call>"
+				for _, c := range after[before:] {
+					if c.Method == "PushBlobChunkedResume" {
+						gotID = c.ID
+					}
+				}
+				if gotID != wantID {
+					v.Failf("stale-upload-location", "%s: the backend's writer reports upload id %q; a status request to the Location handed out (%q) makes the server resume upload id %q", desc, wantID, loc, gotID)
 					return
 				}
 			}
